@@ -211,6 +211,20 @@ MUTANTS = [
       "        self._current_segment += 1\n",
       "        step = 1\n        self._current_segment += step\n"
       "        if self._verify:\n            segment = None\n        else:\n            self._consumer.write(segment)\n", None),
+    M("done-one-segment-early", RET, "        if self._current_segment > self._last_segment:\n            # No more segments to download",
+      "        if self._current_segment >= self._last_segment:\n            # No more segments to download", "C10.10"),
+    M("done-when-no-readers-left", RET, "        elif self._verify and len(self._active_readers) == 0:\n",
+      "        elif self._verify or len(self._active_readers) == 0:\n", "C10.10"),
+    M("done-from-bad-share-handler", RET,
+      "        for reader in readers:\n            self._mark_bad_share(reader.server, reader.shnum, reader, f)\n        return None\n",
+      "        for reader in readers:\n            self._mark_bad_share(reader.server, reader.shnum, reader, f)\n"
+      "        if not self.remaining_sharemap:\n            self._done()\n        return None\n", "C10.10"),
+    M("short-circuit-small-reads", RET, "        if size == 0:\n            # short-circuit the rest of the process\n",
+      "        if size <= 0 or offset >= self._data_length:\n            # short-circuit the rest of the process\n", "C10.10"),
+    M("seq-benign-done-test-rewritten", RET, "        if self._current_segment > self._last_segment:\n            # No more segments to download",
+      "        if not (self._current_segment <= self._last_segment):\n            # No more segments to download", None),
+    M("seq-benign-done-next-segment", RET, "        if self._current_segment > self._last_segment:\n            # No more segments to download",
+      "        if self._current_segment >= self._last_segment + 1:\n            # No more segments to download", None),
     # ---- C10.11 trimming of the first / last requested segment
     M("tail-trim-on-every-other-segment", RET, "        if self._current_segment == self._last_segment:\n            # trim off the tail",
       "        if self._current_segment != self._last_segment:\n            # trim off the tail", "C10.11"),
